@@ -292,6 +292,13 @@ reg("np.histogram", "np.histogram(a, bins=a2sorted, density=True)", "np.histogra
 reg("np.histogram2d", "np.histogram2d(a, c, bins=[a2sorted, csort])", "np.histogram2d(a, c, bins=[a2sorted, csort], density=True)")
 reg("np.histogramdd", "np.histogramdd((a, c), bins=[a2sorted, csort])", "np.histogramdd((a, c), bins=[a2sorted, csort], density=True)")
 reg("np.histogram_bin_edges", "np.histogram_bin_edges(a2, bins=asort) #K")
+# explicit dtype= requests (method and function spellings): the result has the requested type, as on bare data
+reg("np.trace", "S.trace(dtype=np.float32) #K", "S.trace(0, 0, 1, np.float32) #K", "np.trace(S, dtype=np.float32) #K", "S.trace(dtype=np.complex128) #K")
+reg("np.sum", "M.sum(dtype=np.float32) #K", "np.sum(M, dtype=np.float32) #K", "M.mean(dtype=np.float32) #K", "np.mean(M, axis=1, dtype=np.float32) #K",
+    "M.cumsum(dtype=np.float32) #K", "np.cumsum(a, dtype=np.complex128) #K", "np.nansum(M, dtype=np.float32) #K", "np.nanmean(M, dtype=np.float32) #K")
+reg("np.prod", "a[:3].prod(dtype=np.float32)", "np.prod(a[:3], dtype=np.float32)", "np.cumprod(a[:3], dtype=np.float32) #T", "M.var(dtype=np.float32)")
+reg("np.stack", "np.stack([a, a], dtype=np.float32) #K", "np.concatenate([a, a], dtype=np.float32) #K", "np.einsum('ii', S, dtype=np.float32) #K", "np.astype(a, np.float32) #K",
+    "a.astype(np.float32) #K", "np.linspace(qa, qa * 3, 4, dtype=np.float32) #K", "np.full_like(a, qa, dtype=np.float32) #K", "np.asarray(a, dtype=np.float32) #X", "np.ones_like(a, dtype=np.float32) #X")
 # the two coordinates in different units of one dimension; one edge array shared by both, or one per axis in either unit
 reg("np.histogram2d", "np.histogram2d(a, a2, bins=asort)", "np.histogram2d(a, a2, bins=a2sorted)", "np.histogram2d(a2, a, bins=asort, density=True)", "np.histogram2d(a, a2, bins=[asort, a2sorted])",
     "np.histogram2d(a, a2, bins=[a2sorted, asort])", "np.histogram2d(a2, a, bins=[asort, asort], weights=c)", "np.histogram2d(a, a2, bins=[3, asort])", "np.histogram2d(a, a2, bins=[a2sorted, 2])")
